@@ -144,6 +144,56 @@ fn bitvec_body<const N: usize, const W: usize>() {
     vcover!(cv_nonmin, "a non-minimal encoding (spare words) is accepted");
 }
 
+/// `c19_bitvec_encdec_w2`: the other direction for bitmasks of more than one word - a bitmask of
+/// 65..=128 bits over two arbitrary words (the TOP word may be empty: no signer among the highest
+/// indices) is written by the real `write_bitvec` and must then be accepted by the real
+/// `read_bitvec` with the production limit, with the same length and the same live bits, consuming
+/// exactly what was written; `bitvec_size` is the number of bytes written.
+fn bitvec_encdec_w2_body() {
+    let w0 = vs::any_u64();
+    let w1 = vs::any_u64();
+    let n = 65 + vs::any_below(64) as usize;
+    let mut words: Vec<usize> = Vec::with_capacity(2);
+    words.push(w0 as usize);
+    words.push(w1 as usize);
+    let mut bv = match BitVec::try_from_vec(words) {
+        Ok(b) => b,
+        Err(_) => {
+            vcheck!(false, "two words do not make a bitmask");
+            return;
+        }
+    };
+    bv.truncate(n);
+    let mut buf = [0u8; 40];
+    let len = encode_bitvec::<40>(&bv, &mut buf);
+    vcheck!(len.is_some(), "write_bitvec failed on a well-formed bitmask");
+    let len = len.unwrap_or(0);
+    vcheck!(len == bitvec_size(&bv), "bitvec_size differs from the number of bytes write_bitvec produces");
+    let mut rd: &[u8] = &buf[..len];
+    let r = read_bitvec::<NetworkMessageConfig>(&mut rd, MAX_SIGNERS);
+    vcheck!(r.is_ok(), "a bitmask written by write_bitvec is rejected by read_bitvec");
+    vcheck!(rd.is_empty(), "read_bitvec did not consume exactly what write_bitvec produced");
+    if let Ok(d) = r {
+        vcheck!(d.len() == n, "decoded bitmask length differs from the encoded one");
+        let raw = d.as_raw_slice();
+        let live = if n == 128 { u64::MAX } else { (1u64 << (n - 64)) - 1 };
+        vcheck!(raw.len() == 2 && raw[0] as u64 == w0 && (raw[1] as u64 ^ w1) & live == 0, "decoded bitmask bits differ from the encoded ones");
+        std::mem::forget(d);
+    } else {
+        std::mem::forget(r);
+    }
+    vcover!(w1 & (if n == 128 { u64::MAX } else { (1u64 << (n - 64)) - 1 }) == 0, "no signer in the top word");
+    vcover!(w1 != 0 && n < 128, "signers in the top word, dead bits above");
+    std::mem::forget(bv);
+}
+#[cfg_attr(kani, kani::proof)]
+#[cfg_attr(kani, kani::stub(log::max_level, crate::network::kani_c19_net::log_off))]
+#[cfg_attr(kani, kani::unwind(42))]
+#[cfg_attr(verif_replay, test)]
+fn c19_bitvec_encdec_w2() {
+    bitvec_encdec_w2_body()
+}
+
 /// `c19_bitvec_limit_b<N>`: decode only, production limit, buffers big enough for 32 and 33
 /// words: the `MAX_SIGNERS` rejection itself.
 fn bitvec_limit_body<const N: usize>() {
